@@ -115,6 +115,14 @@ def child_main(chan, cache_dir, installed_dir, task, chunks=CHUNKS, lock_timeout
             point("replace", f=os.path.basename(dst), src=os.path.basename(src))
         return real_rename(src, dst, **k)
 
+    real_makedirs = os.makedirs
+
+    def makedirs(name, mode=0o777, exist_ok=False):
+        # creating the cache directory itself (first use of a cache location): a scheduling point only while it is missing
+        if os.path.abspath(name) == cache_dir and not os.path.isdir(name):
+            point("mkcache")
+        return real_makedirs(name, mode, exist_ok)
+    os.makedirs = makedirs
     os.listdir = listdir
     os.path.exists = exists
     os.replace = replace
@@ -238,6 +246,9 @@ def child_main(chan, cache_dir, installed_dir, task, chunks=CHUNKS, lock_timeout
         os._exit(0)
 
 
+SILENT_TIMEOUT = 12.0      # a child that reports nothing for this long is stuck (lock timeouts inside children are far shorter)
+
+
 class Child:
     def __init__(self, name, pid, rfd, wfd):
         self.name = name
@@ -250,7 +261,8 @@ class Child:
         self.dead = False
         self.events = []
 
-    def _readline(self, timeout=30.0):
+    def _readline(self, timeout=None):
+        timeout = SILENT_TIMEOUT if timeout is None else timeout
         t_end = time.time() + timeout
         while b"\n" not in self.buf:
             left = t_end - time.time()
